@@ -457,14 +457,15 @@ def tt_cp_apr_pdnr(  # noqa: PLR0912,PLR0913,PLR0915
     # If the initial guess has any rows of all zero elements, then modify so the row
     # subproblem is not taking log(0). Values will be restored to zero later if the
     # unfolded X for the row has no zeros.
+    # Work on a copy so the caller's initial guess is not modified
+    M = init.copy()
     for n in range(N):
-        rowsum = np.sum(init.factor_matrices[n], axis=1)
+        rowsum = np.sum(M.factor_matrices[n], axis=1)
         tmpIdx = np.where(rowsum == 0)[0]
         if tmpIdx.size != 0:
-            init.factor_matrices[n][tmpIdx, 0] = 1e-8
+            M.factor_matrices[n][tmpIdx, 0] = 1e-8
 
     # Start with the initial guess, normalized using the vector L1 norm
-    M = init.copy()
     M.normalize(normtype=1)
 
     # Sparse tensor flag affects how Pi and Phi are computed.
@@ -818,14 +819,15 @@ def tt_cp_apr_pqnr(  # noqa: PLR0912,PLR0913,PLR0915
     # If the initial guess has any rows of all zero elements, then modify so the row
     # subproblem is not taking log(0). Values will be restored to zero later if the
     # unfolded X for the row has no zeros.
+    # Work on a copy so the caller's initial guess is not modified
+    M = init.copy()
     for n in range(N):
-        rowsum = np.sum(init.factor_matrices[n], axis=1)
+        rowsum = np.sum(M.factor_matrices[n], axis=1)
         tmpIdx = np.where(rowsum == 0)[0]
         if tmpIdx.size != 0:
-            init.factor_matrices[n][tmpIdx, 0] = 1e-8
+            M.factor_matrices[n][tmpIdx, 0] = 1e-8
 
     # Start with the initial guess, normalized using the vector L1 norm
-    M = init.copy()
     M.normalize(normtype=1)
 
     # Sparse tensor flag affects how Pi and Phi are computed.
